@@ -6,7 +6,10 @@ PID = "C07"
 CFG = 'CONSTANTS Mode = "c07"  MaxMut = 1\nSPECIFICATION Spec\nINVARIANTS BaseAccepted T7a Emit\nCHECK_DEADLOCK FALSE\n'
 
 
-def gen():
+def gen(aliens=False):
+    """aliens=True (C07 only): also the documents with members named like another type's required member"""
+    if aliens:
+        return vlib.cached_tlc("docs-aliens", "Gen_Doc", CFG.replace('"c07"', '"c07a"'), workers=8)
     return vlib.cached_tlc("docs", "Gen_Doc", CFG, workers=8)
 
 
@@ -113,6 +116,7 @@ def lex_cov(lsum, lstates, lrows):
 
 def prepare():
     gen()
+    gen(aliens=True)
     gen_lex()
     gen_lex_numbers("quick")
 
@@ -129,7 +133,7 @@ def split(data):
 
 
 def run(tier, seed, t0):
-    data, meta = gen()
+    data, meta = gen(aliens=True)
     rows, devs = split(data)
     if tier == "thorough":
         cdata, cmeta = gen_chains("c07", seed)
